@@ -16,6 +16,17 @@ pub fn open(bytes: &[u8]) -> Result<Mp4Reader<Cursor<Vec<u8>>>, Failure> {
     }
 }
 
+/// open what the reference builder produced: a plain in-memory file, or, for movies with a
+/// phantom gap (> 4 GiB), a stream that serves the gap's zero bytes without storing them
+pub fn open_built(built: &Built) -> Result<Mp4Reader<crate::io::GapStream>, Failure> {
+    let s = crate::io::GapStream::new(built.bytes.clone(), built.gap);
+    let len = s.len();
+    match guarded("read_header", move || Mp4Reader::read_header(s, len))? {
+        Ok(r) => Ok(r),
+        Err(e) => Err(Failure::new(format!("open-failed:{}", crate::engine::normalize_msg(&e.to_string())), format!("read_header failed on a valid file: {}", e))),
+    }
+}
+
 pub struct SampleCheckOpts {
     pub check_sync: bool,
     pub prefix: &'static str,
@@ -94,6 +105,6 @@ pub fn check_samples<R: Read + Seek>(reader: &mut Mp4Reader<R>, m: &Movie, truth
 }
 
 pub fn check_built(m: &Movie, built: &Built, o: &SampleCheckOpts) -> Check {
-    let mut r = open(&built.bytes)?;
+    let mut r = open_built(built)?;
     check_samples(&mut r, m, &built.truth, o)
 }
